@@ -7,7 +7,7 @@ From ClapModel Require Import Parse.Cmd Parse.Build Parse.Valid Parse.Matcher Pa
 From ClapModel Require Import ParseProofs.Safe ParseProofs.Invariant ParseProofs.Totality
                               ParseProofs.ValidateTotal ParseProofs.Relations ParseProofs.TotalityMain
                               ParseProofs.Sites ParseProofs.SitesComplete ParseProofs.FlagSubClass
-                              ParseProofs.FsTotality ParseProofs.FsAny ParseProofs.FsTop ParseProofs.SitesCoverage.
+                              ParseProofs.FsTotality ParseProofs.FsAny ParseProofs.FsLine ParseProofs.FsTop ParseProofs.SitesCoverage.
 From ClapModel Require Import Errors.RenderModel Errors.RenderLink.
 From ClapModel Require Gen.ErrorCtx.
 From ClapModel Require Gen.ParseSites.
@@ -484,3 +484,44 @@ Theorem C01_sites_classified :
        ("builder/command.rs", "Command::format_group", "unwrap", 0) ])%string.
 Proof. exact sites_classified. Qed.
 Print Assumptions C01_sites_classified.
+
+(** ---------- round 5 (D): the line side of the finding ----------
+    ParseProofs/FsLine.v.  [single_clusters argv]: no token is a short cluster of more than one character (`-x` is allowed;
+    `-xy`, `-x=v`, `-xVALUE` are not; long options, values, `-`, `--`, non-UTF-8 tokens are unrestricted). *)
+
+(** for EVERY definition the gate accepts -- any nesting of short flag-subcommands, hyphen values anywhere -- a line of that
+    class never reaches a panic site nor runs out of fuel: [flag_subcmd_at] is set only when a short flag-subcommand letter
+    is followed by more of its cluster.  With [C01_no_panic_flag_subs] (definition side) and [C01_only_site_920]: a panic
+    needs a definition outside [flag_sub_class] AND a multi-character short cluster on the line, and is then the
+    assertion 920. *)
+Theorem C01_no_panic_single_clusters : forall c0 toks,
+  unbuilt c0 = true -> valid c0 = true -> single_clusters toks = true ->
+  match do_parse c0 toks with OPanicked _ | OOutOfFuel => False | _ => True end.
+Proof. exact do_parse_single_clusters. Qed.
+Print Assumptions C01_no_panic_single_clusters.
+
+Theorem C01_no_panic_single_clusters_argv : forall c0 argv,
+  unbuilt c0 = true -> valid c0 = true -> single_clusters argv = true ->
+  match parse_top c0 argv with OPanicked _ | OOutOfFuel => False | _ => True end.
+Proof. exact parse_top_single_clusters. Qed.
+Print Assumptions C01_no_panic_single_clusters_argv.
+
+(** the tokens a subcommand level receives are a suffix of its parent's (the rest of the line, or the rest with the
+    re-read cluster in front) -- for every definition and every loop state *)
+Theorem C01_sub_tokens_suffix : forall c toks ls st n keep vaf st' toks',
+  parse_loop c toks ls st = ROk (LSub n keep vaf st' toks') -> exists pre, toks = pre ++ toks'.
+Proof. exact SitesGuards.sub_tokens_suffix. Qed.
+Print Assumptions C01_sub_tokens_suffix.
+
+(** non-vacuity and sharpness on the nested definition of the finding: `p -S -x -Q -y` parses through two levels of short
+    flag-subcommands; `p -Sx -Qy` is outside the class and reaches 920 *)
+Theorem C01_single_clusters_examples :
+  unbuilt stale_cmd = true /\ valid stale_cmd = true /\ flag_sub_class stale_cmd = false
+  /\ single_clusters [[112]; [45; 83]; [45; 120]; [45; 81]; [45; 121]] = true
+  /\ outcome_kind (parse_top stale_cmd [[112]; [45; 83]; [45; 120]; [45; 81]; [45; 121]]) = Some None
+  /\ single_clusters [[112]; [45; 83; 120]; [45; 81; 121]] = false
+  /\ parse_top stale_cmd [[112]; [45; 83; 120]; [45; 81; 121]] = OPanicked 920
+  /\ single_clusters [[112]; [45; 83]; [45; 195; 169]; [45]; [45; 45]; [45; 45; 120; 61; 49]; [45; 255]] = true
+  /\ single_clusters [[112]; [45; 120; 61]] = false.
+Proof. exact single_clusters_examples. Qed.
+Print Assumptions C01_single_clusters_examples.
